@@ -609,6 +609,11 @@ func (e *Engine) FuncsForProperty(prop string) []*ssa.Function {
 				return true
 			}
 		}
+		for _, t := range fc.CancellableTags {
+			if t == prop {
+				return true
+			}
+		}
 		for _, cs := range [][]*Clause{fc.Requires, fc.Ensures} {
 			for _, c := range cs {
 				if c.HasTag(prop) {
@@ -784,6 +789,11 @@ func (e *Engine) VerifyFunc(fn *ssa.Function) (vc *VC) {
 		}
 	}
 	f.initVisited(st)
+	if fc != nil && fc.Cancellable && e.clauseActive(&Clause{Tags: fc.CancellableTags}) {
+		f.cancelFields = fc.CancelFields
+		f.cancellable = true
+		vc.note("cancellable: blocking channel operations checked structurally (every blocking send/receive is a case of a select that also waits for ctx.Done()); blocking inside callees and goroutines started here is not covered")
+	}
 	if e.noSwallowActive(fc) {
 		st.ghost[noSwallowGhost] = TV{T: "false", S: "Bool", Ty: types.Typ[types.Bool]}
 	}
